@@ -32,7 +32,8 @@ def reference_parse(raw, enc):
         elif b"^" in f:
             val = [(c.decode(enc) if c != b"" else None) for c in f.split(b"^")]
         else:
-            val = f.decode(enc) if f != b"" else None
+            # (an element that is not empty but decodes to the empty text - a lone UTF-7 shift, a BOM - is null too)
+            val = (f.decode(enc) or None) if f != b"" else None
         out.append(val)
     return out
 
@@ -65,11 +66,45 @@ def run(ctx):
     run_decode(s2, cases, ctx)
     streams.append(s2)
 
+    # any other codec a caller may request: the record is split at the *bytes* | \\ ^ and every element is decoded on
+    # its own (EBCDIC, UTF-7, UTF-16 and multi-byte codes whose trail bytes can be 0x5C / 0x5E / 0x7C included);
+    # only the independent reference parser judges here (these codecs are outside the Lean model)
+    s2x = Stream("decode-other-codecs")
+    others = ["cp500", "cp037", "utf-7", "gbk", "shift_jis", "big5", "cp437", "iso8859_15", "cp874", "utf-16-le"]   # no codec with a BOM: an element that decodes to the empty text is a separate question
+    cases = []
+    for _ in range(6000 if ctx.thorough else 1200):
+        enc = r.choice(others)
+        n = r.choice([1, 3, 8, 20])
+        if r.random() < 0.5:
+            raw = bytes(r.choice(b"AB^\\|\x81\x5c\x5e\x7c\xc1\xc2+-/9 \xa4") for _ in range(n))
+        else:
+            try:
+                raw = "".join(r.choice("AB^|\\é中あ€ ") for _ in range(n)).encode(enc)
+            except Exception:
+                continue
+        cases.append((raw.replace(b"\r", b""), enc))
+    for b, enc in cases:
+        got = codecio.impl_line("dr", enc, b)
+        case = {"record": hexb(b), "encoding": enc}
+        s2x.case(case, nontrivial=len(set(b) & set(b"|\\^")) >= 1)
+        s2x.count(enc)
+        try:
+            ref = "ok " + codecio.record_wire(reference_parse(b, enc))
+        except (UnicodeDecodeError, UnicodeError):
+            ref = "err"
+        if got != ref:
+            s2x.fail(dict(case, impl=got[:200], reference=ref[:200]),
+                     "decode_record differs from the positional reference parser (split at the delimiter bytes, every "
+                     "element decoded on its own)", "%s/reference" % s2x.name)
+    streams.append(s2x)
+
     s3 = Stream("roundtrip-canonical")
     lines, impls, metas = [], [], []
     for _ in range(20000 if ctx.thorough else 3000):
         enc = r.choice(codecio.ENCODINGS)
         rec = codecio.canonical_record(r, enc)
+        if r.random() < 0.04:
+            codecio.failing_encode(r, enc)
         ok, raw = codecio.ok_or_err(codec.encode_record, rec, enc)
         case = {"encoding": enc, "record": codecio.record_wire(rec)}
         s3.case(case, nontrivial=any(isinstance(f, list) for f in rec))
